@@ -668,7 +668,7 @@ func (f *Frame) typeAssert(st *State, in ssa.Instruction, v *ssa.TypeAssert) *Va
 			if a.Tag.C.Sign() == 0 {
 				ok = TFalse
 			} else {
-				dt := c.W.tagTypes[int(a.Tag.C.Int64())]
+				dt := c.W.tagType(int(a.Tag.C.Int64()))
 				ok = Bool(types.Implements(dt, iface))
 			}
 		} else {
